@@ -2,6 +2,7 @@
   C18 — Dropping results releases everything they held.
 -/
 import CorgiModel.Step
+import CorgiProofs.Owners
 
 set_option linter.unusedSectionVars false
 
@@ -31,8 +32,28 @@ theorem C18_no_roots_no_owners (σ : State S) (h1 : σ.env = []) (h2 : σ.layers
     σ.roots = [] := by
   simp [State.roots, h1, h2, h3]
 
+
+/-- **Dropping results releases everything they held.**  In *any* state — whatever graphs were built
+    and dropped, however many passes ran, whatever gradients are stored — if every remaining root handle
+    (live names, layer parameters, model outputs) is a leaf, then the owners of a buffer are exactly the
+    root handles that name it: no dropped result, no finished pass, no gradient cell keeps a reference. -/
+theorem C18_released (σ : State S) (b : Nat)
+    (hleaf : ∀ h ∈ σ.roots, ∃ r, σ.nodes[h.node]? = some r ∧ r.kids = [] ∧ r.op = none) :
+    σ.owners b = (σ.roots.filter (·.buf == b)).length := owners_all_leaves σ b hleaf
+
+/-- …so a leaf named once can be taken back by value: `into_values` (the `own` command) succeeds. -/
+theorem C18_sole_owner_can_unwrap (σ : State S) (v : String) (h : Handle) (hg : σ.get v = .ok h)
+    (hleaf : ∀ h ∈ σ.roots, ∃ r, σ.nodes[h.node]? = some r ∧ r.kids = [] ∧ r.op = none)
+    (hone : (σ.roots.filter (·.buf == h.buf)).length = 1) :
+    ∃ σ', exec σ (.own v) = .ok (σ', .owned (σ.tensorOf h).vals) := by
+  have := owners_all_leaves σ h.buf hleaf
+  simp only [exec, hg, bind, Except.bind, pure, Except.pure, this, hone, if_true]
+  exact ⟨_, rfl⟩
+
 end Corgi
 
 #print axioms Corgi.C18_pass_holds_nothing
 #print axioms Corgi.C18_grad_ops_hold_nothing
 #print axioms Corgi.C18_no_roots_no_owners
+#print axioms Corgi.C18_released
+#print axioms Corgi.C18_sole_owner_can_unwrap
